@@ -217,6 +217,55 @@ fn replay(hseed: u64) -> Result<Vec<Vec<u8>>, String> {
     Ok(outputs)
 }
 
+/// A history made of capability-API timers only: started, cleared while pending, answered, cleared
+/// after they finished, several at once. The capability API keeps cleared ids in a process-wide
+/// set, so this is where a replay could come to depend on what ran earlier in the process.
+fn replay_timers(hseed: u64) -> Result<Vec<Vec<u8>>, String> {
+    let mut rng = Rng::new(hseed);
+    let bridge: Bridge<AppD> = Bridge::new(Core::new());
+    let mut norm = TimerNorm { map: HashMap::new() };
+    let mut outputs: Vec<Vec<u8>> = vec![];
+    // (bridge id, timer id, cleared)
+    let mut pending: Vec<(u32, TimerId, bool)> = vec![];
+    let mut finished: Vec<TimerId> = vec![];
+    let steps = rng.range(12, 40);
+    for _ in 0..steps {
+        let choice = rng.below(20);
+        let batch = if pending.is_empty() || choice < 7 {
+            bridge.process_event(&ser(&Event::Do(Job::Time(Api::Legacy, TimeJob::NotifyAfterNanos(rng.below(1 << 30)))))).map_err(|e| e.to_string())?
+        } else if choice < 11 {
+            let i = rng.usize_below(pending.len());
+            pending[i].2 = true;
+            bridge.process_event(&ser(&Event::Do(Job::Time(Api::Legacy, TimeJob::Clear(pending[i].1 .0 as u64))))).map_err(|e| e.to_string())?
+        } else if choice < 16 || finished.is_empty() {
+            let (id, tid, _) = pending.remove(rng.usize_below(pending.len()));
+            finished.push(tid);
+            bridge.handle_response(id, &ser(&TimeResponse::DurationElapsed { id: tid })).map_err(|e| e.to_string())?
+        } else {
+            let tid = finished.remove(rng.usize_below(finished.len()));
+            bridge.process_event(&ser(&Event::Do(Job::Time(Api::Legacy, TimeJob::Clear(tid.0 as u64))))).map_err(|e| e.to_string())?
+        };
+        let reqs: Vec<WireReq> = bopts().deserialize(&batch).map_err(|e| format!("effects do not decode: {e}"))?;
+        let mut normalised = vec![];
+        for r in reqs {
+            if let Op::Time(TimeRequest::NotifyAfter { id, .. }) = &r.effect {
+                pending.push((r.id, *id, false));
+            }
+            normalised.push(WireReq {
+                id: r.id,
+                effect: norm.op(r.effect),
+            });
+        }
+        outputs.push(ser(&normalised));
+        let view: ViewModel = bopts().deserialize(&bridge.view().map_err(|e| e.to_string())?).map_err(|e| e.to_string())?;
+        let view = ViewModel {
+            log: view.log.into_iter().map(|o| norm.outcome(o)).collect(),
+        };
+        outputs.push(ser(&view));
+    }
+    Ok(outputs)
+}
+
 fn digests(outputs: &[Vec<u8>]) -> Vec<u64> {
     outputs.iter().map(|o| fnv64(o)).collect()
 }
@@ -322,6 +371,38 @@ fn main() {
             }
             Ok(Err(e)) => r.violation("replay-failed", &e, json!({"lane": "detlab", "history_seed": hseed})),
             Err(p) => r.violation(&format!("panic/{}", vcommon::panic_site(&p)), &format!("panic during a replay: {p}"), json!({"lane": "detlab", "history_seed": hseed})),
+        }
+    }
+
+    // ---- A'': timer-only histories through the capability API, replayed many times in one process ---
+    let n_timer_hist = args.share(24, 4_000);
+    for h in 0..n_timer_hist {
+        let hseed = hash_mix(seed, h ^ 0x71de);
+        wd.begin(|| json!({"lane": "detlab-timers", "history_seed": hseed}).to_string());
+        let res = vcommon::trap(|| -> Result<Option<(usize, usize)>, String> {
+            let first = replay_timers(hseed)?;
+            for rep in 1..24 {
+                let again = replay_timers(hseed)?;
+                if let Some(i) = (0..first.len().max(again.len())).find(|i| first.get(*i) != again.get(*i)) {
+                    return Ok(Some((rep, i)));
+                }
+            }
+            Ok(None)
+        });
+        wd.end();
+        let mut r = report.lock().unwrap();
+        r.eval();
+        r.count("timer_histories_replayed", 1);
+        r.count("in_process_replays", 24);
+        match res {
+            Ok(Ok(None)) => r.nontrivial(hseed ^ 0x71de),
+            Ok(Ok(Some((rep, i)))) => r.violation(
+                "replay-differs/in-process/capability-timers",
+                &format!("replay {rep} of a capability-API timer history differs from the first replay in this process at output {i} ({})", if i % 2 == 1 { "view" } else { "effects" }),
+                json!({"lane": "detlab-timers", "history_seed": hseed, "replay": rep, "output_index": i}),
+            ),
+            Ok(Err(e)) => r.violation("replay-failed", &e, json!({"lane": "detlab-timers", "history_seed": hseed})),
+            Err(p) => r.violation(&format!("panic/{}", vcommon::panic_site(&p)), &format!("panic during a timer replay: {p}"), json!({"lane": "detlab-timers", "history_seed": hseed})),
         }
     }
 
